@@ -1133,6 +1133,20 @@ func txDirected() [][]string {
 			"selb 1000000 1000 0 a:a0:6:1000000 a:b0:0:1000000",
 			"add a108",
 			"sel 1000000 1000 0 a:a0:6:1000000 a:b0:0:1000000"},
+		// selection, Clear, the same sender comes back with the same nonces, selection: whatever a selection or an eviction
+		// remembered about the senders must not survive Clear
+		{"begin txcache chunks=4 evict=1 nb=1000000 nbs=1000000 c=1000 cs=100 n=1",
+			"tx a107 a0 7 1 10 50 10 0 -", "tx a108 a0 8 1 10 50 10 0 -", "tx a109 a0 9 1 10 50 10 0 -", "tx b103 b0 3 5 10 50 50 0 -",
+			"tx a1c7 a0 7 2 10 50 20 0 -", "tx a1c8 a0 8 2 10 50 20 0 -",
+			"add a107", "add a108", "add b103",
+			"sel 1000000 1000 0 a:a0:7:1000000 a:b0:3:1000000",
+			"clear",
+			"sel 1000000 1000 0 a:a0:7:1000000 a:b0:3:1000000",
+			"add a1c7", "add a1c8", "add a109", "add b103",
+			"sel 1000000 1000 0 a:a0:7:1000000 a:b0:3:1000000",
+			"selb 1000000 1000 0 a:a0:7:1000000 a:b0:3:1000000",
+			"clear", "add a107",
+			"sel 1000000 1000 0 a:a0:7:1000000 a:b0:3:1000000"},
 		// the same by bytes, several chunks, two senders cut
 		{"begin txcache chunks=16 evict=1 nb=400 nbs=1000000 c=1000 cs=100 n=2",
 			"tx a101 a0 0 1 10 50 10 0 -", "tx a102 a0 1 1 10 50 10 0 -", "tx a103 a0 2 1 10 50 10 0 -",
